@@ -37,6 +37,7 @@ func checkC20(c *Check) {
 	c20MacroStringBudget(c)
 	c20LineBreaksAgree(c, "R6c")
 	c20EnvLast(c, "R4b")
+	c20PushBackMatchesRead(c, "R8")
 	_ = p
 }
 
